@@ -239,7 +239,7 @@ class Stats:
         }
 
 
-def _compact(obj, limit=1500):
+def _compact(obj, limit=6000):
     obj = to_jsonable(obj)
     s = json.dumps(obj)
     if len(s) <= limit:
